@@ -335,9 +335,9 @@ def handleSolve (toks : List String) : Option String :=
       let sett ← parseSettings sett
       let rs ← restrictions? restrs
       let tables : TableSpec.Tables := {
-        attrs := ← attrs.mapM parseAttr, evals := ← evals.mapM parseEval,
-        evalFaults := ← efaults.mapM parseEvalFault, allocs := ← allocs.mapM parseAlloc,
-        heurs := ← heurs.mapM parseHeur }
+        attrs := Std.HashMap.ofList (← attrs.mapM parseAttr), evals := Std.HashMap.ofList (← evals.mapM parseEval),
+        evalFaults := ← efaults.mapM parseEvalFault, allocs := (← allocs.mapM parseAlloc).toArray,
+        heurs := (← heurs.mapM parseHeur).toArray }
       let ops := TableSpec.ops tables
       let tape ← nats? tape
       let focus ← nats? focus
